@@ -103,6 +103,15 @@ def stepCfg (D : Layer) (o : Op) : Layer × String :=
     | .unmodelled => (D, "unmodelled")
     | .error => (D, "err:load")
     | .ok file => (nextDefaults table D args file, s!"ok cfg={showCfg D args file}")
+  | "saveprobe" =>   -- a string value OUTSIDE the validated domain of the YAML model: no prediction, the real outcome is only recorded
+    let set := parsePairs (o.str "set") false
+    let c : String → String := fun go =>
+      match set.lookup go with
+      | some v => v
+      | none => ((table.fields.find? (fun f => f.go = go)).map (·.dflt)).getD ""
+    match saveYaml table c with
+    | .unmodelled => (D, "probed")
+    | _ => (D, "probed:modelled-value")   -- the generator left the unmodelled region: visible as a difference
   | "loadx" => (D, "checked")   -- values not of the option's type / malformed files: not predicted
   | _ => (D, "bad-op")
 
